@@ -1,3 +1,126 @@
-import GV.Model.Engine
+/-
+  Props/C08.lean — Service-time contract never strands work.
+  About Model/Engine.lean: `get_next_service_timepoint*` (protocol.rs).
+-/
+import GV.Proofs.EngineBasics
 namespace GV.Props.C08
+open GV
+
+theorem minOpt_le_left (a : Option Nat) (x : Nat) (b : Option Nat) (h : a = some x) : ∃ y, minOpt a b = some y ∧ y ≤ x := by
+  subst h
+  cases b with
+  | none => exact ⟨x, rfl, Nat.le_refl _⟩
+  | some z => simp only [minOpt]; split <;> exact ⟨_, rfl, by omega⟩
+
+theorem minOpt_le_right (a : Option Nat) (x : Nat) (b : Option Nat) (h : b = some x) : ∃ y, minOpt a b = some y ∧ y ≤ x := by
+  subst h
+  cases a with
+  | none => exact ⟨x, rfl, Nat.le_refl _⟩
+  | some z => simp only [minOpt]; split <;> exact ⟨_, rfl, by omega⟩
+
+theorem foldTime_le (base : Option Nat) (d : Nat) : ∃ y, foldTime base d = some y ∧ y ≤ d ∧ (∀ b, base = some b → y ≤ b) := by
+  cases base with
+  | none => exact ⟨d, rfl, Nat.le_refl _, by intro b h; cases h⟩
+  | some b =>
+    simp only [foldTime]
+    split
+    · exact ⟨b, rfl, by omega, by intro b' h; cases h; exact Nat.le_refl _⟩
+    · exact ⟨d, rfl, Nat.le_refl _, by intro b' h; cases h; omega⟩
+
+/-- **Sendable high-priority work wakes the engine now**: with no write pending and something in the
+    high-priority queue (an ack to send, a PUBREL, a PINGREQ, the CONNECT, a DISCONNECT) or an operation half
+    encoded, the queue wants service at the current time. -/
+theorem high_priority_work_wakes_now (e : Engine) (all : Bool) (hw : e.pendingWrite = false)
+    (h : e.current.isSome = true ∨ e.highQ ≠ []) : e.nextQueueTime all = some e.now := by
+  simp only [Engine.nextQueueTime, hw, Bool.false_eq_true, ↓reduceIte]
+  rcases h with h | h
+  · simp [h]
+  · cases hc : e.current.isSome
+    · have : e.highQ.isEmpty = false := by cases hq : e.highQ <;> simp_all
+      simp [this]
+    · simp
+
+/-- **Queued user work wakes the engine now** when connected, unless it is legitimately held back (write
+    pending, slow start with an ack outstanding, receive maximum reached for a QoS 1/2 publish at the head). -/
+theorem user_work_wakes_now (e : Engine) (hw : e.pendingWrite = false) (hc : e.current = none) (hq : e.highQ = [])
+    (hth : (e.slowStartThrottled && e.hasPendingAck) = false) (hset : e.settings = none ∨ ∃ s, e.settings = some s ∧ e.pendingPub.length < s.receiveMaximum)
+    (hwork : e.resubQ ≠ [] ∨ e.userQ ≠ []) : e.nextQueueTime true = some e.now := by
+  have hne : (!e.resubQ.isEmpty || !e.userQ.isEmpty) = true := by
+    rcases hwork with h | h
+    · cases hr : e.resubQ <;> simp_all
+    · cases hu : e.userQ <;> simp_all
+  simp only [Engine.nextQueueTime, hw, hc, hq, hth, Bool.false_eq_true, ↓reduceIte, Option.isSome_none, List.isEmpty_nil, Bool.not_true]
+  rcases hset with h | ⟨s, h, hlt⟩
+  · simp [h, hne]
+  · have : ¬ (e.pendingPub.length ≥ s.receiveMaximum) := by omega
+    simp [h, this, hne]
+
+/-- **Connected: the reported time is never later than due queue work, the ping deadline, the next ping
+    (when no write is pending) or the earliest ack timeout of an operation that is not being written.** -/
+theorem connected_time_covers_all_work (e : Engine) (hs : e.state = .connected) :
+    ∃ t, e.nextServiceTime = some t ∧
+      (∀ d, e.pingDeadline = some d → ∃ y, t = some y ∧ y ≤ d) ∧
+      (∀ id d, e.nextAckTimeout = some (id, d) → e.current ≠ some id → ∃ y, t = some y ∧ y ≤ d) ∧
+      (e.pendingWrite = false → ∀ np, e.nextPing = some np → ∃ y, t = some y ∧ y ≤ np) ∧
+      (e.pendingWrite = false → ∀ q, e.nextQueueTime true = some q → ∃ y, t = some y ∧ y ≤ q) := by
+  simp only [Engine.nextServiceTime, hs]
+  -- t1: ping deadline folded with the earliest ack timeout
+  have hping : ∀ d, e.pingDeadline = some d → ∃ y, e.foldAckTimeout (minOpt none e.pingDeadline) = some y ∧ y ≤ d := by
+    intro d hd
+    simp only [Engine.foldAckTimeout]
+    cases hn : e.nextAckTimeout with
+    | none => simp [minOpt, hd]
+    | some x =>
+      obtain ⟨id, d'⟩ := x
+      simp only []
+      split
+      · obtain ⟨y, hy, _, hb⟩ := foldTime_le (minOpt none e.pingDeadline) d'
+        exact ⟨y, hy, hb d (by simp [minOpt, hd])⟩
+      · simp [minOpt, hd]
+  have hack : ∀ id d, e.nextAckTimeout = some (id, d) → e.current ≠ some id →
+      ∃ y, e.foldAckTimeout (minOpt none e.pingDeadline) = some y ∧ y ≤ d := by
+    intro id d hn hne
+    simp only [Engine.foldAckTimeout, hn]
+    have : (e.current != some id) = true := by simp [hne]
+    simp only [this, ↓reduceIte]
+    obtain ⟨y, hy, hle, _⟩ := foldTime_le (minOpt none e.pingDeadline) d
+    exact ⟨y, hy, hle⟩
+  generalize e.foldAckTimeout (minOpt none e.pingDeadline) = t1 at hping hack ⊢
+  by_cases hw : e.pendingWrite = true
+  · simp only [hw, ↓reduceIte]
+    exact ⟨t1, rfl, hping, hack, by intro h; simp [hw] at h, by intro h; simp [hw] at h⟩
+  · simp only [hw, Bool.false_eq_true, ↓reduceIte]
+    refine ⟨_, rfl, ?_, ?_, ?_, ?_⟩
+    · intro d hd
+      obtain ⟨y, hy, hle⟩ := hping d hd
+      obtain ⟨y2, hy2, hle2⟩ := minOpt_le_left t1 y e.nextPing hy
+      obtain ⟨y3, hy3, hle3⟩ := minOpt_le_right (e.nextQueueTime true) y2 _ hy2
+      exact ⟨y3, hy3, by omega⟩
+    · intro id d hn hne
+      obtain ⟨y, hy, hle⟩ := hack id d hn hne
+      obtain ⟨y2, hy2, hle2⟩ := minOpt_le_left t1 y e.nextPing hy
+      obtain ⟨y3, hy3, hle3⟩ := minOpt_le_right (e.nextQueueTime true) y2 _ hy2
+      exact ⟨y3, hy3, by omega⟩
+    · intro _ np hnp
+      obtain ⟨y2, hy2, hle2⟩ := minOpt_le_right t1 np e.nextPing hnp
+      obtain ⟨y3, hy3, hle3⟩ := minOpt_le_right (e.nextQueueTime true) y2 _ hy2
+      exact ⟨y3, hy3, by omega⟩
+    · intro _ q hq
+      exact minOpt_le_left (e.nextQueueTime true) q _ hq
+
+/-- handshake: the reported time never exceeds the CONNACK deadline -/
+theorem handshake_time_covers_deadline (e : Engine) (d : Nat) (hs : e.state = .pendingConnack) (hd : e.connackDeadline = some d) :
+    ∃ y, e.nextServiceTime = some (some y) ∧ y ≤ d := by
+  simp only [Engine.nextServiceTime, hs, hd]
+  obtain ⟨y, hy, hle, _⟩ := foldTime_le (e.nextQueueTime false) d
+  exact ⟨y, by rw [hy], hle⟩
+
+/-- **No idle spinning on a pending write**: while a write is pending the queue never asks for service. -/
+theorem no_queue_wakeup_while_write_pending (e : Engine) (all : Bool) (h : e.pendingWrite = true) : e.nextQueueTime all = none := by
+  simp [Engine.nextQueueTime, h]
+
+/-- a halted or disconnected engine asks for no service -/
+theorem idle_states_ask_nothing (e : Engine) (h : e.state = .halted ∨ e.state = .disconnected) : e.nextServiceTime = some none := by
+  rcases h with h | h <;> simp [Engine.nextServiceTime, h]
+
 end GV.Props.C08
